@@ -182,7 +182,11 @@ Definition run_dpanic (kind n k : N) : list N :=
      if (kind <? 45) && (n =? 0) && (k =? 0) then [0; SEP; SEP; 0; 2; 1; 0; 0] else
      (* kinds 45, 46: from_header_and_uninit_slice with a length whose layout overflows: the constructor panics and the
         header it was given is destroyed exactly once by the unwinding *)
-     if (kind <? 47) && (n =? 0) && (k =? 0) then [1; SEP; SEP; 0; 1; 0; 0; 0] else [98]) else
+     if (kind <? 47) && (n =? 0) && (k =? 0) then [1; SEP; SEP; 0; 1; 0; 0; 0] else
+     (* kinds 47..49: zero-sized ELEMENTS behind a header whose recorded length is not the real one (5 for 2 elements;
+        0 for 3; a correct thin handle made fat again, relabelled 7 through get_mut): Arc::into_thin refuses with a
+        panic, and the unwinding destroys the header and each real element exactly once *)
+     if (kind <? 50) && (n =? 0) && (k =? 0) then [1; SEP; SEP; 0; (if kind =? 48 then 4 else 3); 0; 0; 0] else [98]) else
   if 24 <=? kind then
     (* kinds 24..27: make_mut / OffsetArc::make_mut / make_unique / unwrap_or_clone of a SHARED value whose type has no
        drop glue and is not Copy: exactly one Clone call, the copy is the Clone's result, the other owner's value is
